@@ -70,10 +70,25 @@ theorem civilFromDays_valid (n : Int) (h0 : -719162 ≤ n) (h1 : n ≤ 2932896) 
   have hdb : 0 ≤ doe ∧ doe < 146097 := by omega
   have hA := Cal.yoe_of_doe doe yoe hdb.1 hdb.2 hyoe
   rw [← hdoy] at hA
-  have hM := Cal.md_of_doy doy mp d hA.2.2.1 (by omega) hmp hd
+  obtain ⟨hy0, hy399, hdoy0, hleap⟩ := hA
+  have hdoy365 : doy ≤ 365 := by omega
+  have hM := Cal.md_of_doy doy mp d hdoy0 hdoy365 hmp hd
+  obtain ⟨hmp0, hmp11, hd1, hdm⟩ := hM
   rw [Cal.validDate_iff]
   have he : 0 ≤ era ∧ era ≤ 24 := by omega
-  refine ⟨?_, ?_, ?_, ?_, hM.2.2.1, ?_⟩ <;> omega
+  clear hc c hyoe
+  have g1 : 1 ≤ (if m ≤ 2 then yoe + era * 400 + 1 else yoe + era * 400) := by
+    clear hleap hdm; omega
+  have g2 : (if m ≤ 2 then yoe + era * 400 + 1 else yoe + era * 400) ≤ 9999 := by
+    clear hleap hdm; omega
+  have g3 : 1 ≤ m ∧ m ≤ 12 := by
+    clear hleap hdm; omega
+  refine ⟨g1, g2, g3.1, g3.2, hd1, ?_⟩
+  clear g1 g2 g3 h0 h1 hz hera hdoe hdb he hmp hd hdoy
+  have hc : mp = 0 ∨ mp = 1 ∨ mp = 2 ∨ mp = 3 ∨ mp = 4 ∨ mp = 5 ∨ mp = 6 ∨ mp = 7 ∨ mp = 8 ∨
+      mp = 9 ∨ mp = 10 ∨ mp = 11 := by omega
+  rcases hc with h | h | h | h | h | h | h | h | h | h | h | h <;> subst h <;>
+    omega
 
 /-- the Unix epoch -/
 theorem epoch_day_zero : daysFromCivil 1970 1 1 = 0 ∧ civilFromDays 0 = (1970, 1, 1) := by
